@@ -9,7 +9,7 @@
 From Coq Require Import String.
 From Coq Require Import NArith ZArith List Bool.
 From Cose Require Import Lib.Base Lib.Cbor Lib.CborProofs Model.GoVal Model.CborGo Model.Wire Model.MsgLogic Model.Msg Model.MsgProofs Model.MsgRoundTrip Model.ValueRoundTrip Model.MsgRoundTripFull
-     Lib.Hex Lib.HexProofs Model.Text Model.TextProofs.
+     Lib.Hex Lib.HexProofs Model.Text Model.TextProofs Model.MsgRoundTripRecip.
 Import ListNotations.
 
 (* ---- the authenticated byte strings are re-emitted as received *)
@@ -151,3 +151,9 @@ Theorem C09_cosemap_json_as_cbor : forall m bs, enc_cosemap m = Some bs ->
   exists t, cosemap_json m = Some t /\ cosemap_of_json t = cosemap_of_bytes bs.
 Proof. exact cosemap_json_as_cbor. Qed.
 Print Assumptions C09_cosemap_json_as_cbor.
+
+(* ---- recipients: Recipient.MarshalCBOR then UnmarshalCBOR, any number of nested recipients, header maps in normal form *)
+Theorem C09_recipient_roundtrip : forall r bs, good_recip r -> marshal_recip r = Some bs ->
+  (forall it, bs = encode it -> encodable it = true) -> recip_decode bs = Ok (recip_rb r).
+Proof. exact recip_roundtrip. Qed.
+Print Assumptions C09_recipient_roundtrip.
